@@ -3,7 +3,7 @@ from registry_common import COMMON_ASSUME
 ENTRY = dict(
         title="Only intact, correctly addressed frames are delivered",
         design_ref="DESIGN.md section 6 / C01",
-        prop_modules=["C01", "TieFrame", "TieReader"],
+        prop_modules=["C01", "C01Session", "TieFrame", "TieReader"],
         technique="Lean 4 theorem over all byte streams (reader model) + correspondence with FrameReader.read on a real StreamReader + Lean judge C01.spec on implementation deliveries",
         level_text=(
             "Proof: `C01.delivered_only_if_well_formed` and `C01.holds` show for ALL byte streams that a delivery by the reader model "
@@ -13,6 +13,8 @@ ENTRY = dict(
             "and the executable predicate C01.spec is evaluated by the Lean driver on everything the implementation delivered."),
         level_note="Trusted: Lean kernel; reader model <-> stream.py tie is differential (generated streams); asyncio.StreamReader chunk handling is exercised, not modelled.",
         clauses={
+            "a reader object used again after calls that ended abnormally (READER_TIMEOUT, cancellation by the caller; after the delimiter, inside the header, inside the body) delivers only frames justified by the bytes THAT call consumed":
+                "theorem (C01.session_calls_are_reads, session_delivered_only_if_well_formed over Model/ReaderSession: the stream position is where the abandoned call stopped, nothing else is remembered) + correspondence (one FrameReader / DummyProtocol.reader across abandoned calls vs the session model, C01.spec on every later delivery)",
             "delivered => well-formed, all streams": "theorem",
             "non-delivery outcomes are ignored / protocol error / connection lost": "theorem (by construction of the model) + correspondence (implementation has no other behaviour)",
             "every fragmentation into chunks": "correspondence (3 chunkings per stream; StreamReader trusted)",
